@@ -86,6 +86,10 @@ trait MacroJson {
     fn list(&self) -> Result<Vec<Simple>, Error>;
     #[endpoint(method = GET, path = "/m/map", accept = ConjureResponseDeserializer)]
     fn map(&self) -> Result<BTreeMap<String, Simple>, Error>;
+    #[endpoint(method = GET, path = "/m/shape", accept = ConjureResponseDeserializer)]
+    fn shape(&self) -> Result<Shape, Error>;
+    #[endpoint(method = GET, path = "/m/shapes", accept = ConjureResponseDeserializer)]
+    fn shapes(&self) -> Result<Vec<Shape>, Error>;
 }
 
 #[conjure_http::conjure_client]
@@ -98,6 +102,10 @@ trait AsyncMacroJson {
     async fn list(&self) -> Result<Vec<Simple>, Error>;
     #[endpoint(method = GET, path = "/m/map", accept = ConjureResponseDeserializer)]
     async fn map(&self) -> Result<BTreeMap<String, Simple>, Error>;
+    #[endpoint(method = GET, path = "/m/shape", accept = ConjureResponseDeserializer)]
+    async fn shape(&self) -> Result<Shape, Error>;
+    #[endpoint(method = GET, path = "/m/shapes", accept = ConjureResponseDeserializer)]
+    async fn shapes(&self) -> Result<Vec<Shape>, Error>;
 }
 
 fn show(r: Result<String, Error>) -> String {
@@ -129,33 +137,48 @@ fn val_nd<T: std::fmt::Debug>(v: T) -> String {
 struct Doc {
     text: &'static str,
     /// which return types it is (meant to be) a value of: i = integer, s = Simple, l = list of Simple, m = map to Simple,
-    /// o = optional string, z = set of integers
+    /// o = optional string, z = set of integers, u = the union `Shape`
     of: &'static str,
+    /// return types for which the document is, by construction, NOT a value (whatever the type's own `Deserialize` says)
+    not_of: &'static str,
 }
 
-const DOCS: [Doc; 16] = [
-    Doc { text: "7", of: "i" },
-    Doc { text: "-2147483648", of: "i" },
-    Doc { text: "{\"a\":1,\"b\":\"x\"}", of: "s" },
-    Doc { text: "{\"b\":\"y\",\"a\":-3,\"addedInV2\":{\"k\":[1,{\"z\":null}]}}", of: "s" },
-    Doc { text: "[{\"a\":1,\"b\":\"x\"},{\"a\":2,\"b\":\"\",\"extra\":true}]", of: "l" },
-    Doc { text: "[]", of: "lz" },
-    Doc { text: "{\"k\":{\"a\":1,\"b\":\"x\",\"more\":[[]]}}", of: "m" },
-    Doc { text: "{}", of: "m" },
-    Doc { text: "\"text\"", of: "o" },
-    Doc { text: "null", of: "o" },
-    Doc { text: "[3,1,2]", of: "z" },
-    Doc { text: "{\"a\":1}", of: "s" },
-    Doc { text: "{\"a\":\"1\",\"b\":\"x\"}", of: "s" },
-    Doc { text: "[1,", of: "z" },
-    Doc { text: "7 8", of: "i" },
-    Doc { text: "true", of: "ios" },
+const DOCS: [Doc; 22] = [
+    Doc { text: "7", of: "i", not_of: "" },
+    Doc { text: "-2147483648", of: "i", not_of: "" },
+    Doc { text: "{\"a\":1,\"b\":\"x\"}", of: "s", not_of: "" },
+    Doc { text: "{\"b\":\"y\",\"a\":-3,\"addedInV2\":{\"k\":[1,{\"z\":null}]}}", of: "s", not_of: "" },
+    Doc { text: "[{\"a\":1,\"b\":\"x\"},{\"a\":2,\"b\":\"\",\"extra\":true}]", of: "l", not_of: "" },
+    Doc { text: "[]", of: "lz", not_of: "" },
+    Doc { text: "{\"k\":{\"a\":1,\"b\":\"x\",\"more\":[[]]}}", of: "m", not_of: "" },
+    Doc { text: "{}", of: "m", not_of: "" },
+    Doc { text: "\"text\"", of: "o", not_of: "" },
+    Doc { text: "null", of: "o", not_of: "" },
+    Doc { text: "[3,1,2]", of: "z", not_of: "" },
+    Doc { text: "{\"a\":1}", of: "s", not_of: "" },
+    Doc { text: "{\"a\":\"1\",\"b\":\"x\"}", of: "s", not_of: "" },
+    Doc { text: "[1,", of: "z", not_of: "" },
+    Doc { text: "7 8", of: "i", not_of: "" },
+    Doc { text: "true", of: "ios", not_of: "" },
+    Doc { text: "{\"type\":\"label\",\"label\":\"x\"}", of: "u", not_of: "" },
+    Doc { text: "{\"label\":\"x\",\"type\":\"label\"}", of: "u", not_of: "" },
+    Doc { text: "{\"type\":\"foobar\",\"foobar\":[1]}", of: "u", not_of: "" },
+    // the two member names of a union document must agree, whichever comes first and whether or not they are known
+    Doc { text: "{\"bazqux\":1,\"type\":\"foobar\"}", of: "u", not_of: "u" },
+    Doc { text: "{\"type\":\"foobar\",\"bazqux\":1}", of: "u", not_of: "u" },
+    Doc { text: "{\"circle\":1.5,\"type\":\"label\"}", of: "u", not_of: "u" },
 ];
 
 #[allow(clippy::too_many_arguments)]
-fn one<T: DeserializeOwned + std::fmt::Debug>(cs: &mut Cases, what: &str, kind: Kind, sc: &Scripted, sync: impl FnOnce(&Scripted) -> Result<String, Error> + std::panic::UnwindSafe, asy: impl FnOnce(&Scripted) -> Result<String, Error> + std::panic::UnwindSafe) {
+fn one<T: DeserializeOwned + std::fmt::Debug>(cs: &mut Cases, what: &str, kind: Kind, sc: &Scripted, not_a_value: bool, sync: impl FnOnce(&Scripted) -> Result<String, Error> + std::panic::UnwindSafe, asy: impl FnOnce(&Scripted) -> Result<String, Error> + std::panic::UnwindSafe) {
     let body = joined(&sc.chunks);
-    let v = if kind == Kind::Empty { verdict::<serde::de::IgnoredAny>(false, &body) } else { verdict::<T>(false, &body) };
+    let v = if kind == Kind::Empty {
+        verdict::<serde::de::IgnoredAny>(false, &body)
+    } else if not_a_value {
+        "x".to_string()
+    } else {
+        verdict::<T>(false, &body)
+    };
     let (s1, s2) = (sc.clone(), sc.clone());
     let b = guarded(move || show(sync(&s1)));
     let a = guarded(move || show(asy(&s2)));
@@ -189,30 +212,30 @@ pub fn add(cs: &mut Cases, rng: &mut Rng, tier: Tier) {
                 let ga = |s: &Scripted| VerifServiceAsyncClient::new(s.clone());
                 // generated clients, one method per return-type class
                 if d.of.contains('i') {
-                    one::<i32>(cs, "generated safeBody -> integer", Kind::Ser, &sc, |s| gs(s).safe_body(1).map(val_nd), |s| block_on(ga(s).safe_body(1)).map(val_nd));
-                    one::<i32>(cs, "generated noRet -> nothing", Kind::Empty, &sc, |s| gs(s).no_ret(None, "h").map(|_| "unit".to_string()), |s| block_on(ga(s).no_ret(None, "h")).map(|_| "unit".to_string()));
-                    one::<i32>(cs, "macro int -> i32", Kind::Ser, &sc, |s| MacroJsonClient::new(s.clone()).int().map(val_nd), |s| block_on(AsyncMacroJsonClient::new(s.clone()).int()).map(val_nd));
+                    one::<i32>(cs, "generated safeBody -> integer", Kind::Ser, &sc, false, |s| gs(s).safe_body(1).map(val_nd), |s| block_on(ga(s).safe_body(1)).map(val_nd));
+                    one::<i32>(cs, "generated noRet -> nothing", Kind::Empty, &sc, false, |s| gs(s).no_ret(None, "h").map(|_| "unit".to_string()), |s| block_on(ga(s).no_ret(None, "h")).map(|_| "unit".to_string()));
+                    one::<i32>(cs, "macro int -> i32", Kind::Ser, &sc, false, |s| MacroJsonClient::new(s.clone()).int().map(val_nd), |s| block_on(AsyncMacroJsonClient::new(s.clone()).int()).map(val_nd));
                 }
                 if d.of.contains('s') {
                     let (t1, t2, b1, b2) = (tok.clone(), tok.clone(), simple.clone(), simple.clone());
-                    one::<Simple>(cs, "generated body -> object", Kind::Ser, &sc, move |s| gs(s).body(&t1, &b1).map(val_nd), move |s| block_on(ga(s).body(&t2, &b2)).map(val_nd));
-                    one::<Option<Simple>>(cs, "generated optBody -> optional<object>", Kind::DefSer, &sc, |s| gs(s).opt_body(None).map(|v| val(s.status, v)), |s| block_on(ga(s).opt_body(None)).map(|v| val(s.status, v)));
-                    one::<Simple>(cs, "macro simple -> Simple", Kind::Ser, &sc, |s| MacroJsonClient::new(s.clone()).simple().map(val_nd), |s| block_on(AsyncMacroJsonClient::new(s.clone()).simple()).map(val_nd));
-                    one::<Simple>(cs, "generated noRet -> nothing", Kind::Empty, &sc, |s| gs(s).no_ret(None, "h").map(|_| "unit".to_string()), |s| block_on(ga(s).no_ret(None, "h")).map(|_| "unit".to_string()));
+                    one::<Simple>(cs, "generated body -> object", Kind::Ser, &sc, false, move |s| gs(s).body(&t1, &b1).map(val_nd), move |s| block_on(ga(s).body(&t2, &b2)).map(val_nd));
+                    one::<Option<Simple>>(cs, "generated optBody -> optional<object>", Kind::DefSer, &sc, false, |s| gs(s).opt_body(None).map(|v| val(s.status, v)), |s| block_on(ga(s).opt_body(None)).map(|v| val(s.status, v)));
+                    one::<Simple>(cs, "macro simple -> Simple", Kind::Ser, &sc, false, |s| MacroJsonClient::new(s.clone()).simple().map(val_nd), |s| block_on(AsyncMacroJsonClient::new(s.clone()).simple()).map(val_nd));
+                    one::<Simple>(cs, "generated noRet -> nothing", Kind::Empty, &sc, false, |s| gs(s).no_ret(None, "h").map(|_| "unit".to_string()), |s| block_on(ga(s).no_ret(None, "h")).map(|_| "unit".to_string()));
                 }
                 if d.of.contains('l') {
-                    one::<Vec<Simple>>(cs, "macro list -> Vec<Simple>", Kind::Ser, &sc, |s| MacroJsonClient::new(s.clone()).list().map(val_nd), |s| block_on(AsyncMacroJsonClient::new(s.clone()).list()).map(val_nd));
-                    one::<ListAlias>(cs, "generated listAliasRet -> alias of list<integer>", Kind::DefSer, &sc, |s| gs(s).list_alias_ret(1).map(|v| val(s.status, v)), |s| block_on(ga(s).list_alias_ret(1)).map(|v| val(s.status, v)));
+                    one::<Vec<Simple>>(cs, "macro list -> Vec<Simple>", Kind::Ser, &sc, false, |s| MacroJsonClient::new(s.clone()).list().map(val_nd), |s| block_on(AsyncMacroJsonClient::new(s.clone()).list()).map(val_nd));
+                    one::<ListAlias>(cs, "generated listAliasRet -> alias of list<integer>", Kind::DefSer, &sc, false, |s| gs(s).list_alias_ret(1).map(|v| val(s.status, v)), |s| block_on(ga(s).list_alias_ret(1)).map(|v| val(s.status, v)));
                 }
                 if d.of.contains('m') {
-                    one::<BTreeMap<String, Simple>>(cs, "macro map -> BTreeMap<String, Simple>", Kind::Ser, &sc, |s| MacroJsonClient::new(s.clone()).map().map(val_nd), |s| block_on(AsyncMacroJsonClient::new(s.clone()).map()).map(val_nd));
-                    one::<BTreeMap<String, i32>>(cs, "generated mapRet -> map<string, integer>", Kind::DefSer, &sc, |s| gs(s).map_ret(1, &[]).map(|v| val(s.status, v)), |s| block_on(ga(s).map_ret(1, &[])).map(|v| val(s.status, v)));
-                    one::<MapAlias>(cs, "generated mapAliasRet -> alias of map<string, double>", Kind::DefSer, &sc, |s| gs(s).map_alias_ret(1).map(|v| val(s.status, v)), |s| block_on(ga(s).map_alias_ret(1)).map(|v| val(s.status, v)));
+                    one::<BTreeMap<String, Simple>>(cs, "macro map -> BTreeMap<String, Simple>", Kind::Ser, &sc, false, |s| MacroJsonClient::new(s.clone()).map().map(val_nd), |s| block_on(AsyncMacroJsonClient::new(s.clone()).map()).map(val_nd));
+                    one::<BTreeMap<String, i32>>(cs, "generated mapRet -> map<string, integer>", Kind::DefSer, &sc, false, |s| gs(s).map_ret(1, &[]).map(|v| val(s.status, v)), |s| block_on(ga(s).map_ret(1, &[])).map(|v| val(s.status, v)));
+                    one::<MapAlias>(cs, "generated mapAliasRet -> alias of map<string, double>", Kind::DefSer, &sc, false, |s| gs(s).map_alias_ret(1).map(|v| val(s.status, v)), |s| block_on(ga(s).map_alias_ret(1)).map(|v| val(s.status, v)));
                 }
                 if d.of.contains('o') {
-                    one::<Option<String>>(cs, "generated ctx -> optional<string>", Kind::DefSer, &sc, |s| gs(s).ctx("f", None).map(|v| val(s.status, v)), |s| block_on(ga(s).ctx("f", None)).map(|v| val(s.status, v)));
-                    one::<OptStrAlias>(cs, "generated optAliasRet -> alias of optional<string>", Kind::DefSer, &sc, |s| gs(s).opt_alias_ret(1).map(|v| val(s.status, v)), |s| block_on(ga(s).opt_alias_ret(1)).map(|v| val(s.status, v)));
-                    one::<String>(cs, "generated mixed -> string", Kind::Ser, &sc, {
+                    one::<Option<String>>(cs, "generated ctx -> optional<string>", Kind::DefSer, &sc, false, |s| gs(s).ctx("f", None).map(|v| val(s.status, v)), |s| block_on(ga(s).ctx("f", None)).map(|v| val(s.status, v)));
+                    one::<OptStrAlias>(cs, "generated optAliasRet -> alias of optional<string>", Kind::DefSer, &sc, false, |s| gs(s).opt_alias_ret(1).map(|v| val(s.status, v)), |s| block_on(ga(s).opt_alias_ret(1)).map(|v| val(s.status, v)));
+                    one::<String>(cs, "generated mixed -> string", Kind::Ser, &sc, false, {
                         let t = tok.clone();
                         move |s| gs(s).mixed(&t, "p", 1, &"ri.a.b.c.d".parse().unwrap(), "q", None, &[], &BTreeSet::new(), "h", None).map(val_nd)
                     }, {
@@ -220,15 +243,19 @@ pub fn add(cs: &mut Cases, rng: &mut Rng, tier: Tier) {
                         move |s| block_on(ga(s).mixed(&t, "p", 1, &"ri.a.b.c.d".parse().unwrap(), "q", None, &[], &BTreeSet::new(), "h", None)).map(val_nd)
                     });
                 }
+                if d.of.contains('u') {
+                    let bad = d.not_of.contains('u');
+                    one::<Shape>(cs, "macro shape -> union", Kind::Ser, &sc, bad, |s| MacroJsonClient::new(s.clone()).shape().map(val_nd), |s| block_on(AsyncMacroJsonClient::new(s.clone()).shape()).map(val_nd));
+                }
                 if d.of.contains('z') {
-                    one::<BTreeSet<i32>>(cs, "generated optAliasBody -> set<integer>", Kind::DefSer, &sc, |s| gs(s).opt_alias_body(&OptObjAlias(None)).map(|v| val(s.status, v)), |s| block_on(ga(s).opt_alias_body(&OptObjAlias(None))).map(|v| val(s.status, v)));
+                    one::<BTreeSet<i32>>(cs, "generated optAliasBody -> set<integer>", Kind::DefSer, &sc, false, |s| gs(s).opt_alias_body(&OptObjAlias(None)).map(|v| val(s.status, v)), |s| block_on(ga(s).opt_alias_body(&OptObjAlias(None))).map(|v| val(s.status, v)));
                 }
                 // binary classes: only the Content-Type and the status matter
                 {
                     let t = tok.clone();
                     let t2 = tok.clone();
-                    one::<i32>(cs, "generated optBinary -> optional<binary>", Kind::OptBin, &sc, move |s| gs(s).opt_binary(&t, true).map(|o| if o.is_some() { "stream".to_string() } else { "default".to_string() }), move |s| block_on(ga(s).opt_binary(&t2, true)).map(|o| if o.is_some() { "stream".to_string() } else { "default".to_string() }));
-                    one::<i32>(cs, "generated binary -> binary", Kind::Bin, &sc, |s| gs(s).binary(1, crate::loopback::SliceBody(vec![1])).map(|_| "stream".to_string()), |s| block_on(ga(s).binary(1, crate::loopback::SliceBody(vec![1]))).map(|_| "stream".to_string()));
+                    one::<i32>(cs, "generated optBinary -> optional<binary>", Kind::OptBin, &sc, false, move |s| gs(s).opt_binary(&t, true).map(|o| if o.is_some() { "stream".to_string() } else { "default".to_string() }), move |s| block_on(ga(s).opt_binary(&t2, true)).map(|o| if o.is_some() { "stream".to_string() } else { "default".to_string() }));
+                    one::<i32>(cs, "generated binary -> binary", Kind::Bin, &sc, false, |s| gs(s).binary(1, crate::loopback::SliceBody(vec![1])).map(|_| "stream".to_string()), |s| block_on(ga(s).binary(1, crate::loopback::SliceBody(vec![1]))).map(|_| "stream".to_string()));
                 }
             }
         }
